@@ -3,6 +3,7 @@
  * (thorough). */
 #define _GNU_SOURCE
 #include <pthread.h>
+#include <sched.h>
 #include <stdio.h>
 #include <stdlib.h>
 #include <string.h>
@@ -119,7 +120,8 @@ static volatile int arrived;
 static void *thr(void *arg) {
     int id = (int) (intptr_t) arg;
     __atomic_add_fetch(&arrived, 1, __ATOMIC_SEQ_CST);
-    while (__atomic_load_n(&arrived, __ATOMIC_SEQ_CST) < nthreads) { }
+    /* yield while waiting: with more threads than cores a pure spin starves the threads still to arrive (under TSan for minutes) */
+    while (__atomic_load_n(&arrived, __ATOMIC_SEQ_CST) < nthreads) sched_yield();
     results[id] = work(id);
     return NULL;
 }
